@@ -9,6 +9,7 @@ import (
 	"go/types"
 	"sort"
 	"strings"
+	"sync"
 
 	"golang.org/x/tools/go/ssa"
 )
@@ -97,17 +98,26 @@ func (w *World) canon(v ssa.Value, d int) string {
 	case *ssa.FieldAddr:
 		return w.canon(x.X, d+1) + "." + fieldName(x.X.Type(), x.Field)
 	case *ssa.Field:
+		switch y := x.X.(type) {
+		case *ssa.UnOp:
+			// a field of a local parameter object loaded as a whole
+			if a, ok := y.X.(*ssa.Alloc); ok && y.Op == token.MUL && privateStruct(a) {
+				if s, ok := w.canonFieldCell(a, x.Field, y, d); ok {
+					return s
+				}
+			}
+		case *ssa.Call:
+			if s, ok := w.canonStructResultField(y, x.Field, d); ok {
+				return s
+			}
+		}
 		return w.canon(x.X, d+1) + "." + fieldName(x.X.Type(), x.Field)
 	case *ssa.IndexAddr:
 		return w.canon(x.X, d+1) + "[" + w.canonIndex(x.Index, d+1) + "]"
 	case *ssa.Index:
-		if w.cur != nil && w.cur.st != nil && len(w.cur.st.mem) > 0 {
-			if base, idx, isCell := memCellOf(x); isCell {
-				if ix, ok := evalIntSt(idx, w.cur.st, 0); ok {
-					if mv, ok := w.cur.st.mem[memKey{base, ix}]; ok {
-						return mv.s
-					}
-				}
+		if w.cur != nil {
+			if mv, ok := loadCell(x, w.cur.st); ok {
+				return mv.s
 			}
 		}
 		return w.canon(x.X, d+1) + "[" + w.canonIndex(x.Index, d+1) + "]"
@@ -116,13 +126,17 @@ func (w *World) canon(v ssa.Value, d int) string {
 	case *ssa.UnOp:
 		switch x.Op {
 		case token.MUL:
-			// a cell of a local array written on the path being enumerated: what was stored
-			if w.cur != nil && w.cur.st != nil && len(w.cur.st.mem) > 0 {
-				if base, idx, isCell := memCellOf(x); isCell {
-					if ix, ok := evalIntSt(idx, w.cur.st, 0); ok {
-						if mv, ok := w.cur.st.mem[memKey{base, ix}]; ok {
-							return mv.s
-						}
+			// a local cell written on the path being enumerated: what was stored
+			if w.cur != nil {
+				if mv, ok := loadCell(x, w.cur.st); ok {
+					return mv.s
+				}
+			}
+			// a field of a local parameter object: what can reach this load
+			if fa, ok := x.X.(*ssa.FieldAddr); ok {
+				if a, isA := fa.X.(*ssa.Alloc); isA && privateStruct(a) {
+					if s, ok := w.canonFieldCell(a, fa.Field, x, d); ok {
+						return s
 					}
 				}
 			}
@@ -140,14 +154,39 @@ func (w *World) canon(v ssa.Value, d int) string {
 	case *ssa.BinOp:
 		return normCmp(w.canon(x.X, d+1), x.Op, w.canon(x.Y, d+1), isConst(x.X))
 	case *ssa.Call:
+		if w.cur != nil && w.cur.st != nil && w.cur.st.callRes != nil {
+			if rs, ok := w.cur.st.callRes[x]; ok && len(rs) == 1 {
+				return rs[0]
+			}
+		}
 		if s, ok := w.canonForwarded(x, -1, d); ok {
 			return s
 		}
 		return w.canonCall(x.Common(), d)
 	case *ssa.Extract:
 		if c, isCall := x.Tuple.(*ssa.Call); isCall {
+			if w.cur != nil && w.cur.st != nil && w.cur.st.callRes != nil {
+				if rs, ok := w.cur.st.callRes[c]; ok && x.Index < len(rs) {
+					return rs[x.Index]
+				}
+			}
 			if s, ok := w.canonForwarded(c, x.Index, d); ok {
 				return s
+			}
+			// one result of a single-block helper without effects, when helpers are inlined
+			if w.inlineHelpers && len(w.inlineEnv) < w.inlineLimit() {
+				if fn := c.Common().StaticCallee(); fn != nil && len(fn.Params) == len(c.Common().Args) {
+					if res := w.simpleTupleHelper(fn); res != nil && x.Index < len(res) {
+						env := map[*ssa.Parameter]string{}
+						for i, p := range fn.Params {
+							env[p] = w.canon(c.Common().Args[i], d+1)
+						}
+						w.inlineEnv = append(w.inlineEnv, env)
+						out := w.canon(res[x.Index], d+1)
+						w.inlineEnv = w.inlineEnv[:len(w.inlineEnv)-1]
+						return out
+					}
+				}
 			}
 		}
 		return w.canon(x.Tuple, d+1) + "#" + fmt.Sprint(x.Index)
@@ -435,7 +474,7 @@ func (w *World) zval(v ssa.Value, d int) string {
 		return w.Canon(v)
 	}
 	// a simple module helper: the value it returns, with its parameters bound
-	if res := w.simpleHelper(f); res != nil && len(f.Params) == len(args) && len(w.inlineEnv) < 3 {
+	if res := w.simpleHelper(f); res != nil && len(f.Params) == len(args) && len(w.inlineEnv) < w.inlineLimit() {
 		env := map[*ssa.Parameter]string{}
 		for i, p := range f.Params {
 			env[p] = w.Canon(args[i])
@@ -455,6 +494,74 @@ func (w *World) CanonI(v ssa.Value) string {
 	w.inlineHelpers = true
 	defer func() { w.inlineHelpers = false }()
 	return w.canon(v, 0)
+}
+
+// callerEnvs: for a package-private helper, the bindings of its parameters to the
+// canonical forms of the arguments at its call sites — themselves in terms of the
+// callers' callers, through up to three levels; one binding per call chain. A
+// function without (static, same-shape) callers has the single empty binding.
+func (w *World) callerEnvs(fn *ssa.Function, d int) []map[*ssa.Parameter]string {
+	if d >= 3 || fn == nil || fn.Blocks == nil || len(fn.Params) == 0 || (fn.Object() != nil && fn.Object().Exported()) {
+		return []map[*ssa.Parameter]string{nil}
+	}
+	cs := w.nodeCallers(fn)
+	if len(cs) == 0 || len(cs) > 6 {
+		return []map[*ssa.Parameter]string{nil}
+	}
+	var out []map[*ssa.Parameter]string
+	for _, c := range cs {
+		if c.Site == nil || c.Site.Common().StaticCallee() == nil || len(c.Site.Common().Args) != len(fn.Params) {
+			return []map[*ssa.Parameter]string{nil}
+		}
+		for _, outer := range w.callerEnvs(c.Caller, d+1) {
+			if outer != nil {
+				w.inlineEnv = append(w.inlineEnv, outer)
+			}
+			env := map[*ssa.Parameter]string{}
+			for k, p := range fn.Params {
+				s := w.canon(c.Site.Common().Args[k], 0)
+				if c.Caller.Parent() != nil {
+					s = strings.ReplaceAll(s, "^", "")
+				}
+				env[p] = s
+			}
+			if outer != nil {
+				w.inlineEnv = w.inlineEnv[:len(w.inlineEnv)-1]
+			}
+			out = append(out, env)
+		}
+	}
+	return out
+}
+
+// CanonAtCallers: the canonical forms of v (a value of fn) in terms of the functions
+// that call fn (see callerEnvs); one string per call chain.
+func (w *World) CanonAtCallers(fn *ssa.Function, v ssa.Value) []string {
+	var out []string
+	for _, env := range w.callerEnvs(fn, 0) {
+		if env != nil {
+			w.inlineEnv = append(w.inlineEnv, env)
+		}
+		out = append(out, w.Canon(v))
+		if env != nil {
+			w.inlineEnv = w.inlineEnv[:len(w.inlineEnv)-1]
+		}
+	}
+	return out
+}
+
+// CanonDeep: CanonI with helpers inlined through up to six levels.
+func (w *World) CanonDeep(v ssa.Value) string {
+	w.inlineDeep = true
+	defer func() { w.inlineDeep = false }()
+	return w.CanonI(v)
+}
+
+func (w *World) inlineLimit() int {
+	if w.inlineDeep {
+		return 6
+	}
+	return 3
 }
 
 func (w *World) canonCallI(c *ssa.CallCommon) string {
@@ -483,8 +590,256 @@ func (w *World) simpleHelper(fn *ssa.Function) ssa.Value {
 	return ret.Results[0]
 }
 
+// privateStruct: a local struct variable that is only used field by field (stores
+// and loads through field addresses) or loaded as a whole — never stored as a
+// whole, passed by address or captured.
+func privateStruct(a *ssa.Alloc) bool {
+	if v, ok := privateStructMemo.Load(a); ok {
+		return v.(bool)
+	}
+	ok := false
+	if _, isS := deref(a.Type()).Underlying().(*types.Struct); isS {
+		ok = true
+		if refs := a.Referrers(); refs != nil {
+			for _, r := range *refs {
+				switch x := r.(type) {
+				case *ssa.FieldAddr:
+					if frefs := x.Referrers(); frefs != nil {
+						for _, fr := range *frefs {
+							switch y := fr.(type) {
+							case *ssa.Store:
+								if y.Addr != ssa.Value(x) {
+									ok = false
+								}
+							case *ssa.UnOp:
+								if y.Op != token.MUL {
+									ok = false
+								}
+							case *ssa.DebugRef:
+							default:
+								ok = false
+							}
+						}
+					}
+				case *ssa.UnOp:
+					if x.Op != token.MUL {
+						ok = false
+					}
+				case *ssa.Store:
+					// assigned as a whole (the result of a call, a copy)
+					if x.Addr != ssa.Value(a) || x.Val == ssa.Value(a) {
+						ok = false
+					}
+				case *ssa.DebugRef:
+				default:
+					ok = false
+				}
+			}
+		}
+	}
+	privateStructMemo.Store(a, ok)
+	return ok
+}
+
+var privateStructMemo sync.Map
+
+// assembledByField: some field of the struct variable is assigned on its own (the
+// variable is a parameter object being filled in, not a copy of another value).
+func assembledByField(a *ssa.Alloc) bool {
+	if refs := a.Referrers(); refs != nil {
+		for _, r := range *refs {
+			if fa, ok := r.(*ssa.FieldAddr); ok {
+				if frefs := fa.Referrers(); frefs != nil {
+					for _, fr := range *frefs {
+						if st, isSt := fr.(*ssa.Store); isSt && st.Addr == ssa.Value(fa) {
+							return true
+						}
+					}
+				}
+			}
+		}
+	}
+	return false
+}
+
+// wholeDef marks a definition of a struct variable by a store of a whole value.
+type wholeDef struct{ ssa.Value }
+
+// fieldDefsAt: the values that field f of the private struct variable a can hold
+// just before instruction `at` (reaching definitions over the CFG); zero is true
+// when the variable may still be unassigned there.
+func fieldDefsAt(a *ssa.Alloc, f int, at ssa.Instruction) (defs []ssa.Value, zero bool) {
+	// a definition that is a *ssa.Store stands for "field f of the whole value stored"
+	seen := map[*ssa.BasicBlock]bool{}
+	have := map[ssa.Value]bool{}
+	var scan func(b *ssa.BasicBlock, from int)
+	scan = func(b *ssa.BasicBlock, from int) {
+		for i := from; i >= 0; i-- {
+			if st, ok := b.Instrs[i].(*ssa.Store); ok {
+				if fa, isFA := st.Addr.(*ssa.FieldAddr); isFA && fa.X == ssa.Value(a) && fa.Field == f {
+					if !have[st.Val] {
+						have[st.Val] = true
+						defs = append(defs, st.Val)
+					}
+					return
+				}
+				if st.Addr == ssa.Value(a) {
+					whole := wholeDef{st.Val}
+					if !have[whole] {
+						have[whole] = true
+						defs = append(defs, whole)
+					}
+					return
+				}
+			}
+			if b.Instrs[i] == ssa.Instruction(a) {
+				zero = true
+				return
+			}
+		}
+		if len(b.Preds) == 0 {
+			zero = true
+			return
+		}
+		for _, p := range b.Preds {
+			if !seen[p] {
+				seen[p] = true
+				scan(p, len(p.Instrs)-1)
+			}
+		}
+	}
+	b := at.Block()
+	idx := -1
+	for i, in := range b.Instrs {
+		if in == at {
+			idx = i
+		}
+	}
+	scan(b, idx-1)
+	return defs, zero
+}
+
+// canonFieldCell prints field f of the private struct variable a as it is just
+// before `at`: the value stored, or the join of the values that can reach.
+func (w *World) canonFieldCell(a *ssa.Alloc, f int, at ssa.Instruction, d int) (string, bool) {
+	if d > 12 {
+		return "", false
+	}
+	defs, zero := fieldDefsAt(a, f, at)
+	if len(defs) == 0 {
+		return "", false
+	}
+	set := map[string]bool{}
+	for _, v := range defs {
+		if wd, isWhole := v.(wholeDef); isWhole {
+			if c, isCall := wd.Value.(*ssa.Call); isCall {
+				if s, ok := w.canonStructResultField(c, f, d+1); ok {
+					set[s] = true
+					continue
+				}
+			}
+			set[w.canon(wd.Value, d+2)+"."+fieldName(a.Type(), f)] = true
+			continue
+		}
+		set[w.canon(v, d+2)] = true
+	}
+	if zero {
+		st := deref(a.Type()).Underlying().(*types.Struct)
+		if b, ok := st.Field(f).Type().Underlying().(*types.Basic); ok && b.Info()&types.IsNumeric != 0 {
+			set["0"] = true
+		} else {
+			set["nil"] = true
+		}
+	}
+	var ss []string
+	for s := range set {
+		ss = append(ss, s)
+	}
+	sort.Strings(ss)
+	if len(ss) == 1 {
+		return ss[0], true
+	}
+	return "phi(" + strings.Join(ss, "|") + ")", true
+}
+
+// canonStructResultField prints field f of the struct a module function returns,
+// when every return hands back one private struct variable of the function
+// (a parameter object filled in field by field); parameters are bound to the
+// call's arguments.
+func (w *World) canonStructResultField(c *ssa.Call, f int, d int) (string, bool) {
+	fn := c.Common().StaticCallee()
+	if fn == nil || !w.InModule(fn) || fn.Blocks == nil || len(fn.Params) != len(c.Common().Args) || len(w.inlineEnv) >= 4 || d > 10 {
+		return "", false
+	}
+	var loads []*ssa.UnOp
+	for _, b := range fn.Blocks {
+		rt, ok := lastInstr(b).(*ssa.Return)
+		if !ok || b == fn.Recover {
+			continue
+		}
+		if len(rt.Results) != 1 {
+			return "", false
+		}
+		ld, ok := rt.Results[0].(*ssa.UnOp)
+		if !ok || ld.Op != token.MUL {
+			return "", false
+		}
+		a, ok := ld.X.(*ssa.Alloc)
+		if !ok || !privateStruct(a) || !assembledByField(a) {
+			return "", false
+		}
+		loads = append(loads, ld)
+	}
+	if len(loads) == 0 {
+		return "", false
+	}
+	env := map[*ssa.Parameter]string{}
+	for i, p := range fn.Params {
+		env[p] = w.canon(c.Common().Args[i], d+1)
+	}
+	w.inlineEnv = append(w.inlineEnv, env)
+	defer func() { w.inlineEnv = w.inlineEnv[:len(w.inlineEnv)-1] }()
+	set := map[string]bool{}
+	for _, ld := range loads {
+		s, ok := w.canonFieldCell(ld.X.(*ssa.Alloc), f, ld, d+1)
+		if !ok {
+			return "", false
+		}
+		set[s] = true
+	}
+	var ss []string
+	for s := range set {
+		ss = append(ss, s)
+	}
+	sort.Strings(ss)
+	if len(ss) == 1 {
+		return ss[0], true
+	}
+	return "phi(" + strings.Join(ss, "|") + ")", true
+}
+
+// simpleTupleHelper: like simpleHelper for a function with several results.
+func (w *World) simpleTupleHelper(fn *ssa.Function) []ssa.Value {
+	if fn == nil || !w.InModule(fn) || len(fn.Blocks) != 1 || fn.Signature.Results().Len() < 2 || len(fn.Blocks[0].Instrs) > 14 {
+		return nil
+	}
+	var ret *ssa.Return
+	for _, in := range fn.Blocks[0].Instrs {
+		switch x := in.(type) {
+		case *ssa.Store, *ssa.MapUpdate, *ssa.Go, *ssa.Defer, *ssa.Panic, *ssa.Send, *ssa.RunDefers:
+			return nil
+		case *ssa.Return:
+			ret = x
+		}
+	}
+	if ret == nil {
+		return nil
+	}
+	return ret.Results
+}
+
 func (w *World) canonCall(c *ssa.CallCommon, d int) string {
-	if w.inlineHelpers && len(w.inlineEnv) < 3 {
+	if w.inlineHelpers && len(w.inlineEnv) < w.inlineLimit() {
 		if fn := c.StaticCallee(); fn != nil {
 			if res := w.simpleHelper(fn); res != nil && len(fn.Params) == len(c.Args) {
 				env := map[*ssa.Parameter]string{}
